@@ -112,8 +112,13 @@ func linearAttempt(c *Ctx) {
 		okE := len(errs) == 1 && P.Before(g.fn, an.Is(bs), errs[0]) && P.Before(g.fn, an.Is(errs[0]), sel) && g.onlyAfterSuccess(errs[0], sel)
 		g.add("PATH", "after every tick the context is re-checked before forwarding", okE, pickS(okE, "tick -> ctx.Err() == nil -> send", "a tick can be forwarded without re-checking the context (more than one tick after cancellation)"), sel)
 		okT := false
-		if ex, ok := sel.States[0].Send.(*ssa.Extract); ok && ex.Tuple == ssa.Value(bs) {
+		if srcs := P.SourcesAt(sel.States[0].Send, sel); len(srcs) > 0 {
 			okT = true
+			for _, sv := range srcs {
+				if ex, ok := sv.(*ssa.Extract); !ok || ex.Tuple != ssa.Value(bs) {
+					okT = false
+				}
+			}
 		}
 		g.add("PROV", "the value forwarded is the tick just received", okT, "send value is the select's received time", sel)
 		// the ctx.Done() branch returns
@@ -143,41 +148,97 @@ func linearAttempt(c *Ctx) {
 			g.add("PATH", "cancellation ends the goroutine without forwarding", okd, "the ctx.Done() case reaches no send", bs)
 		}
 	}
-	// the bounded counter
+	// the bounded counter: i = 0; i < limit; i++ on a successful send -- or the countdown n = limit; n > 0; n--
 	var cnt *ssa.Phi
+	step := int64(1)
+	// limitOK: the value is count - 1 as fixed by LinearAttempt before the goroutine starts
+	limitOK := func(v ssa.Value) bool {
+		srcs := P.Sources(v)
+		if _, isL := isLoad(v); isL {
+			srcs = []ssa.Value{v}
+		}
+		if len(srcs) == 0 {
+			return false
+		}
+		for _, sv := range srcs {
+			if ld, isL := isLoad(sv); isL {
+				if cell := P.CellOf(ld.X); cell != nil {
+					okc, dec := true, false
+					for _, st := range P.CellStores(cell) {
+						if st.Parent() != fn {
+							okc = false
+						}
+						if bo, isB := st.Val.(*ssa.BinOp); isB && bo.Op == token.SUB {
+							if k, isK := constInt(bo.Y); isK && k == 1 {
+								dec = true
+							}
+						}
+					}
+					if okc && dec {
+						continue
+					}
+				}
+				return false
+			}
+			// a plain value of LinearAttempt: count - 1
+			if valueParent(sv) != fn || len(fn.Params) < 3 || !P.Lin(sv).Equal(aP(fn.Params[2].Name()).AddC(-1)) {
+				return false
+			}
+		}
+		return true
+	}
 	if ifi, ok := loopHeaderGuard(g.fn, sel); ok {
 		b := stripNotV(ifi.Cond).(*ssa.BinOp)
 		isPhiV := func(v ssa.Value) bool { _, ok := v.(*ssa.Phi); return ok }
-		if op, limit, okc := cmpOf(b, isPhiV); okc && op == token.LSS {
+		op, limit, okc := cmpOf(b, isPhiV)
+		// the comparison as it holds on the edge that continues the loop
+		contTrue := ifi.Block().Succs[0].Dominates(sel.Block())
+		if _, neg := ifi.Cond.(*ssa.UnOp); neg {
+			contTrue = !contTrue
+		}
+		if okc && !contTrue {
+			switch op {
+			case token.LSS:
+				op = token.GEQ
+			case token.GEQ:
+				op = token.LSS
+			case token.GTR:
+				op = token.LEQ
+			case token.LEQ:
+				op = token.GTR
+			default:
+				okc = false
+			}
+		}
+		cont := ifi.Block().Succs[0].Dominates(sel.Block()) != ifi.Block().Succs[1].Dominates(sel.Block())
+		if okc && (op == token.LSS || op == token.GTR) {
 			ph := b.X
 			if !isPhiV(ph) {
 				ph = b.Y
 			}
-			cnt = ph.(*ssa.Phi)
-			b = &ssa.BinOp{Op: token.LSS, X: ph, Y: limit}
-			// limit is a load of the count cell, which is written only in LinearAttempt (param - 1)
 			lim := false
-			if ld, isL := isLoad(b.Y); isL {
-				if cell := P.CellOf(ld.X); cell != nil {
-					lim = true
-					for _, st := range P.CellStores(cell) {
-						if st.Parent() != fn {
-							lim = false
-						}
+			if op == token.LSS {
+				cnt = ph.(*ssa.Phi)
+				lim = cont && limitOK(limit)
+			} else if isZero(limit) {
+				cnt = ph.(*ssa.Phi)
+				step = -1
+				// the countdown starts at the limit
+				lim = cont
+				n := 0
+				for i, e := range cnt.Edges {
+					pred := cnt.Block().Preds[i]
+					if cnt.Block().Dominates(pred) {
+						continue
 					}
-					// the decrement
-					dec := false
-					for _, st := range P.CellStores(cell) {
-						if bo, isB := st.Val.(*ssa.BinOp); isB && bo.Op == token.SUB {
-							if k, isK := constInt(bo.Y); isK && k == 1 {
-								dec = P.Before(fn, an.In(inl), st) || true
-							}
-						}
-					}
-					lim = lim && dec
+					n++
+					lim = lim && limitOK(e)
 				}
+				lim = lim && n >= 1
 			}
-			g.add("LIN", "the loop runs while sent < count - 1", lim, pickS(lim, "guard i < count with count = param - 1, not modified by the goroutine", "the loop bound is not count - 1 fixed before the goroutine starts"), ifi)
+			if cnt != nil {
+				g.add("LIN", "the loop runs while sent < count - 1", lim, pickS(lim, "guard i < count (or a countdown from count to 0) with count = param - 1, not modified by the goroutine", "the loop bound is not count - 1 fixed before the goroutine starts"), ifi)
+			}
 		}
 	}
 	if cnt == nil {
@@ -188,17 +249,19 @@ func linearAttempt(c *Ctx) {
 		for i, e := range cnt.Edges {
 			pred := cnt.Block().Preds[i]
 			switch {
-			case isZero(e) && !P.InCycle(pred.Instrs[len(pred.Instrs)-1]):
+			case step == 1 && isZero(e) && !P.InCycle(pred.Instrs[len(pred.Instrs)-1]):
+			case step == -1 && !cnt.Block().Dominates(pred):
+				// the start of the countdown (judged above)
 			case e == ssa.Value(cnt):
 			default:
 				bo, isB := e.(*ssa.BinOp)
-				inc := isB && bo.Op == token.ADD && bo.X == ssa.Value(cnt)
+				inc := isB && (step == 1 && bo.Op == token.ADD || step == -1 && bo.Op == token.SUB) && bo.X == ssa.Value(cnt)
 				if inc {
 					k, isK := constInt(bo.Y)
 					inc = isK && k == 1
 				}
 				if !inc {
-					good, why = false, "the counter is updated by something other than +1: "+e.String()
+					good, why = false, "the counter is updated by something other than one step: "+e.String()
 					break
 				}
 				// only on the send-success edge of the non-blocking select
@@ -208,12 +271,12 @@ func linearAttempt(c *Ctx) {
 					return ok && b.Op == token.EQL && either(b, isVal(sidx), isZero)
 				})
 				if len(ifs) != 1 || !(&fq{c: c, fn: g.fn, name: g.name}).onlyViaEdge(bo, ifs[0], 0) {
-					good, why = false, "the counter is incremented on a path where the value was not sent (or not only there)"
+					good, why = false, "the counter is stepped on a path where the value was not sent (or not only there)"
 				}
 			}
 		}
-		// and every successful send increments: from the success edge, the back edge carries i+1 (checked above by edge enumeration)
-		g.add("LIN", "the counter counts exactly the values sent", good, pickS(good, "i = phi(0, i, i+1 on the send-success edge)", why), cnt)
+		// and every successful send steps: from the success edge, the back edge carries the stepped counter (checked above by edge enumeration)
+		g.add("LIN", "the counter counts exactly the values sent", good, pickS(good, "i = phi(start, i, i stepped by one on the send-success edge)", why), cnt)
 	}
 	// closed on every path, never twice
 	closesF := P.CallsTo(fn, "builtin:close")
